@@ -393,6 +393,7 @@ structure DS where
   net : NetS
   attached : Bool
   pending : List Nat
+  seen : List Nat := []      -- the part of the iterated list object the loop has already passed (matters only for in-place removal)
 deriving Inhabited
 
 /-- which list object is iterated: `some p` = the prefix list of `p`, `none` = `_listeners` -/
@@ -400,12 +401,21 @@ def iterKey (r : Registry) (data : Bytes) : Option Bytes :=
   if (lookupPrefix r.prefixMap (data.take Gen.prefixLen)).isSome then some (data.take Gen.prefixLen) else none
 
 def applyOp (key : Option Bytes) (s : DS) : RegOp → DS
-  | .add x => { s with reg := s.reg.addListener x, pending := if s.attached then s.pending ++ [x] else s.pending }
+  | .add x => { s with reg := s.reg.addListener x,
+                       pending := if s.attached && Gen.addAppendsInPlace then s.pending ++ [x] else s.pending }
   | .addp x q =>
     match s.reg.addPrefixListener x q with
     | none => s                       -- RuntimeError inside the listener (wrong prefix length): registry unchanged
     | some r' => { s with reg := r', attached := s.attached && !(key == some q) }
-  | .rm x => { s with reg := s.reg.removeListener x, attached := false }
+  | .rm x =>
+    if Gen.rmRebuilds then { s with reg := s.reg.removeListener x, attached := false }
+    else if s.attached then
+      -- removal edits the iterated list object in place: everything behind the removed entries moves up while the loop's
+      -- index stays, so for each removed entry the loop has already passed, one pending listener is skipped
+      let seen' := s.seen.filter (· != x)
+      { s with reg := s.reg.removeListener x, seen := seen',
+               pending := (s.pending.filter (· != x)).drop (s.seen.length - seen'.length) }
+    else { s with reg := s.reg.removeListener x }
   | .setOpen b => { s with reg := { s.reg with isOpen := b } }
 
 def hasSender : List Ev → Bool
@@ -421,7 +431,7 @@ def stepOut (env : Env) (dec : Nat → Bytes → Dec) (src data : Bytes) (s : DS
     the registry calls the listener made are applied in order -/
 def stepState (env : Env) (src data : Bytes) (key : Option Bytes) (s : DS) (l : Nat) (rest : List Nat) (out : Out) : DS :=
   (if deliverCond s.reg l data then env.effects l data else []).foldl (applyOp key)
-    { s with net := if hasSender out.1 then (s.net.lookup src).2 else s.net, pending := rest }
+    { s with net := if hasSender out.1 then (s.net.lookup src).2 else s.net, pending := rest, seen := s.seen ++ [l] }
 
 /-- the loop of Endpoint.notify_listeners with re-entrant registry calls and the shared Network.
     `fuel` only makes the definition structural (a listener that registers a new listener on every call would loop
@@ -441,7 +451,7 @@ def dispatch (env : Env) (dec : Nat → Bytes → Dec) (src data : Bytes) (key :
          (dispatch env dec src data key fuel (stepState env src data key s l rest (stepOut env dec src data s l))).2)
 
 def initDS (r : Registry) (net : NetS) (data : Bytes) : DS :=
-  { reg := r, net := net, attached := true, pending := recipients r data }
+  { reg := r, net := net, attached := !Gen.notifyIteratesCopy, pending := recipients r data }
 
 /-- Endpoint.notify_listeners((src, data)) -/
 def notify (env : Env) (dec : Nat → Bytes → Dec) (fuel : Nat) (r : Registry) (net : NetS) (src data : Bytes) : Out × DS :=
